@@ -266,7 +266,17 @@ func packetLevel(c *mon.Ctx, r *gen.Rand, h *ref.PES, b []byte, hdrEnd int) {
 	if hb, err := packet.PESHeader(&p); err == nil || hb != nil {
 		c.Fail("packet:pes-header-without-payload", "packet.PESHeader returned bytes for a packet without the payload flag", w(&p, ""))
 	}
-	c.Eval(4)
+	// 5. the payload flag is clear in the other way as well (adaptation_field_control 00): the start code then sits
+	// where a payload-only packet would have it, but the packet has no payload
+	p = ref.PaddedPacket(int(p[1]&0x1f)<<8|int(p[2]), int(p[3]&0x0f), true, b)
+	p[3] &^= 0x30
+	if hb, err := packet.PESHeader(&p); err == nil || hb != nil {
+		c.Fail("packet:pes-header-without-payload", "packet.PESHeader returned bytes for a packet with neither the payload nor the adaptation-field flag", w(&p, ""))
+	}
+	if _, ok := pes.AlignedPUSI(&p); ok {
+		c.Fail("packet:aligned-without-payload", "AlignedPUSI matched a packet without the payload flag", w(&p, ""))
+	}
+	c.Eval(6)
 }
 
 func run(c *mon.Ctx) {
